@@ -56,6 +56,7 @@ def wide_seeds(tier):
     coefficients and exponents) and every ancestor context of the balanced move; explored less deep"""
     s = X.termsums(2, X.TERMS_T, ["+", "*"])
     s += ["x^(2 + -2) * x^3", "x^(1 - 1) * x", "(2 - 2) * x + x", "x^2 * x^(3 - 3)", "0x + 2x", "x + 0x", "(1 - 1)x^2 * x"]
+    s += X.FOLD_MAGNITUDES
     ctx = X.contexts(1)
     s += ctx[:: (3 if tier == "quick" else 1)]
     s += X.equations(["2", "-3", "x", "2x", "0x", "x^2"], ("+", "-", "*"))[:: (5 if tier == "quick" else 1)]
